@@ -142,7 +142,8 @@ func checkLoop(t ev.T, test string, c LoopCase) {
 		case oSuccess:
 			return nil
 		case oRetriable:
-			return fmt.Errorf("attempt %d: %w", i, errRetriable)
+			// (every failed attempt also carries something of its own: the caller is to receive the LAST error, not a bundle)
+			return fmt.Errorf("attempt %d: %w (%w)", i, errRetriable, attemptMark(i))
 		case oFatal:
 			return fmt.Errorf("attempt %d: %w", i, errFatal)
 		case oCancelThenFail:
@@ -211,6 +212,16 @@ func checkLoop(t ev.T, test string, c LoopCase) {
 			ev.Fail(t, prop, test, c, "result %v, but some attempt succeeded = %v (attempts: %+v)", res, succeeded, recs)
 		}
 	}
+	if res != nil && n > 1 && c.Enabled {
+		// the last error, not the earlier ones
+		for j := 0; j < n-1 && j < len(attemptMarks); j++ {
+			if recs[j].outcome == oRetriable && recs[n-1].outcome != oCancelThenFail && dctx.Err() == nil {
+				if errors.Is(res, attemptMarks[j]) && !(recs[n-1].outcome == oRetriable && (n-1)%len(attemptMarks) == j) {
+					ev.Fail(t, prop, test, c, "the result %q still carries the error of attempt %d although %d attempts were made: the caller is to receive the last error", res, j, n)
+				}
+			}
+		}
+	}
 	if res != nil && n > 0 {
 		lastOutcome := recs[n-1].outcome
 		ctxEnded := dctx.Err() != nil
@@ -260,6 +271,17 @@ func checkLoop(t ev.T, test string, c LoopCase) {
 		}
 	}
 }
+
+// attemptMark is what attempt i's retriable failure wraps besides the retriable sentinel: a sentinel of its own.
+var attemptMarks = func() []error {
+	var m []error
+	for i := 0; i < 16; i++ {
+		m = append(m, fmt.Errorf("mark of attempt %d", i))
+	}
+	return m
+}()
+
+func attemptMark(i int) error { return attemptMarks[i%len(attemptMarks)] }
 
 func containsAttempt(err error, i int) bool {
 	return err != nil && len(err.Error()) > 0 && (contains(err.Error(), fmt.Sprintf("attempt %d:", i)))
